@@ -1662,6 +1662,11 @@ def platform_and_interpreter_case(run, rng, pv, idx):
             run.violation('disconnect/raised/%s' % variant, 'disconnect() '
                           'raised', dict(w, raised=raised))
         H.next_mode = 'hold'
+        # (the first connect() made a TCP connection even where it then
+        # failed to start its thread: wait until the server's accept loop has
+        # registered every connection made so far before counting)
+        pc.wait_for(lambda: len(H.ios) >= getattr(conn, 'vf_generation', 0),
+                    5.0)
         n0 = len(H.ios)
         try:
             conn.connect()
